@@ -112,6 +112,8 @@ pub struct SrvInfo {
     pub lease: Option<u32>,
     pub bad: String,
     pub ipsrc: Ipv4Address,
+    pub ipdst: Ipv4Address,
+    pub eth_bcast: bool,
     pub eth_ok: bool,
     pub sport: u16,
     pub dport: u16,
@@ -302,6 +304,8 @@ impl Sim {
             lease,
             bad: bad.clone(),
             ipsrc,
+            ipdst,
+            eth_bcast: g("eth", "bcast") == "bcast",
             eth_ok: g("eth", "bcast") != "other",
             sport,
             dport,
@@ -664,7 +668,9 @@ impl Oracle {
             let subnet_bcast = self.cidr.and_then(|c| c.broadcast()).map(|b| b == a).unwrap_or(false);
             (is_unicast(a) && !subnet_bcast) || a.is_unspecified()
         };
-        m.bad == "-" && m.eth_ok && src_ok && m.sport == self.sport && m.dport == self.cport
+        // RFC 1122 3.3.6 (process_ethernet): a link-layer broadcast must carry an IP broadcast/multicast destination
+        let link_ok = !m.eth_bcast || m.ipdst.is_multicast() || m.ipdst.is_broadcast() || self.cidr.and_then(|c| c.broadcast()).map(|b| b == m.ipdst).unwrap_or(false);
+        m.bad == "-" && m.eth_ok && link_ok && src_ok && m.sport == self.sport && m.dport == self.cport
     }
     /// clauses (iii)-(vi) of the property on the message content
     fn content_ok(m: &SrvInfo) -> bool {
@@ -1050,14 +1056,14 @@ fn gen_case(rng: &mut Rng, id: String, tier: &str) -> Case {
                 12 => format!("pollrel d=-{}", rng.range(2, 2_000_000)),
                 13 => format!("pollrel d={}", rng.range(2, 2_000_000)),
                 14 => format!("pollrel d={}", *rng.pick(&[1_000_000i64, 5_000_000, 10_000_000, 60_000_000, 120_000_000, 600_000_000])),
-                15 | 16 => format!("poll t={}", sim.now + rng.range(0, 3_000_000)),
-                17 => format!("poll t={}", sim.now + *rng.pick(&[1i64, 1000, 500_000, 1_000_000, 2_500_000, 10_000_000])),
+                15 | 16 => format!("poll t={}", sim.now.saturating_add(rng.range(0, 3_000_000))),
+                17 => format!("poll t={}", sim.now.saturating_add(*rng.pick(&[1i64, 1000, 500_000, 1_000_000, 2_500_000, 10_000_000]))),
                 18 => format!("poll t={}", sim.now),
                 _ => {
                     if arith {
                         format!("pollrel d={}", *rng.pick(&[0i64, 0, 0, 4_611_686_018_427_387_904, 1 << 40]))
                     } else {
-                        format!("poll t={}", sim.now + rng.range(0, 200_000_000))
+                        format!("poll t={}", sim.now.saturating_add(rng.range(0, 200_000_000)))
                     }
                 }
             };
@@ -1143,7 +1149,18 @@ fn gen_case(rng: &mut Rng, id: String, tier: &str) -> Case {
             let router = if pert(rng) { (*rng.pick(ROUTERS)).to_string() } else { p.router.clone() };
             let dns = if pert(rng) { (*rng.pick(DNS)).to_string() } else { p.dns.clone() };
             let ipsrc = if pert(rng) { (*rng.pick(IPSRC_ODD)).to_string() } else { p.server.clone() };
-            let eth = if pert(rng) { "other" } else if rng.chance(1, 2) { "bcast" } else { "own" };
+            // link-layer destination and IP destination are chosen together (a link-layer broadcast carrying a
+            // unicast IP destination is discarded by process_ethernet)
+            let (eth, ip_unicast_dst) = if pert(rng) {
+                ("other", rng.chance(1, 2))
+            } else {
+                match rng.below(20) {
+                    0..=8 => ("bcast", false),
+                    9..=16 => ("own", true),
+                    17 => ("own", false),
+                    _ => ("bcast", true),
+                }
+            };
             let bad = if pert(rng) { *rng.pick(BADS) } else { "-" };
             let (sport, dport, force_bcast) = if rng.below(100) < h / 2 {
                 if rng.chance(1, 2) {
@@ -1154,7 +1171,7 @@ fn gen_case(rng: &mut Rng, id: String, tier: &str) -> Case {
             } else {
                 (sp, cp, false)
             };
-            let ipdst = if force_bcast || rng.chance(3, 5) { "255.255.255.255".to_string() } else { p.yi.clone() };
+            let ipdst = if force_bcast || !ip_unicast_dst { "255.255.255.255".to_string() } else { p.yi.clone() };
             let op = format!(
                 "srv kind={} xid={} mac={} sid={} yi={} mask={} lease={} t1={} t2={} router={} dns={} ipsrc={} ipdst={} eth={} sport={} dport={} bad={}",
                 kind, xid, mac, sid, yi, mask, lease, t1, t2, router, dns, ipsrc, ipdst, eth, sport, dport, bad
